@@ -767,6 +767,31 @@ package part
 //@   mustcall (*Tree).Get@1 when @a-tree-backed-set-asks-its-own-tree s.hasTree
 //@   atcall (*Tree).Get@1 requires @its-own-tree $0 == addr(s.tree)
 //@   ensureslocal @nothing-in-a-set-without-a-tree !s.hasTree ==> !result
+//@ func Map.Get returns (value, found)
+//@   property C17
+//@   flag nosafety
+//@   maypanic
+//@   flag dyncall.bytesFromKeyFunc=pure
+//@   flag assumepre=tree-representation-invariant
+//@   atcall (*Tree).Get@1 requires @the-maps-own-tree $0 == addr(m.tree)
+//@   ensureslocal @nothing-in-an-empty-map m.singleton == nil && !m.hasTree ==> !found
+//@ func Set.Set
+//@   property C17
+//@   flag nosafety
+//@   maypanic
+//@   flag dyncall.toBytes=pure
+//@   flag assumepre=tree-representation-invariant
+//@   atcall (*Txn).Insert@1 requires @the-callers-value-into-a-transaction-of-the-sets-own-tree $0 == txn && $2 == v
+//@   mustcall (*Txn).Insert@1 when @always true
+//@   mustcall (*Txn).Commit@1 when @always true
+//@   ensureslocal @result-has-a-tree result.hasTree
+//@ func Set.Equal
+//@   property C17
+//@   flag nosafety
+//@   maypanic
+//@   flag assumepre=tree-representation-invariant
+//@   ensureslocal @two-sets-without-trees-are-equal !s.hasTree && !other.hasTree ==> result
+//@   ensureslocal @different-sizes-are-never-equal (s.hasTree || other.hasTree) && (s.hasTree ? s.tree.size : 0) != (other.hasTree ? other.tree.size : 0) ==> !result
 // Set operations (C17): every write goes through a transaction opened on the receiver's OWN tree
 // (the argument's tree is only read through an iterator), and the result is what that
 // transaction committed.
